@@ -217,6 +217,16 @@ Theorem C06_rr_holders_on_this_tree :
 Proof. exact (rr_by_flag rr_holders_exact_denom). Qed.
 Print Assumptions C06_rr_holders_on_this_tree.
 
+(* address rotation ONTO an existing actor and away again: on this tree (flag regenerated) either both rotation messages
+   refuse such a target and the enumeration of every permission completes, or the orphaned index entry halts the chain *)
+Theorem C06_rotation_onto_actor_on_this_tree :
+  if rotation_refuses_actor_target
+  then (a_enumerate 5 (a_actors (rot_hist rotation_refuses_actor_target)) (a_index (rot_hist rotation_refuses_actor_target)) = Ok [20] /\
+        a_enumerate 7 (a_actors (rot_hist rotation_refuses_actor_target)) (a_index (rot_hist rotation_refuses_actor_target)) = Ok [1])
+  else a_enumerate 5 (a_actors (rot_hist rotation_refuses_actor_target)) (a_index (rot_hist rotation_refuses_actor_target)) = Panic "actor-missing".
+Proof. exact (rotation_by_flag rotation_refuses_actor_target). Qed.
+Print Assumptions C06_rotation_onto_actor_on_this_tree.
+
 Theorem C06_upgrade_halt_only_when_due : forall due processed instate h skip,
   is_panic (upgrade_begin due processed instate h skip) = true -> due = true /\ processed = true.
 Proof. exact upgrade_halt_only_when_due. Qed.
@@ -350,7 +360,7 @@ Definition audit_table : list (string * string * nat * string * list string) := 
   ("x/gov/keeper.Keeper.GetAverageVotesSlash", "quo", 1%nat, "guarded: returns zero when there is no Yes vote (totalCount == 0) before dividing by the Yes-vote count; exercised by the gov-vote-patterns histories (every vote pattern, run past the enactment end)", ["b15566c2f50370ff"]);
   ("x/gov/keeper.Keeper.GetExecutionFee", "must", 1%nat, "decodes bytes (or re-parses an address) that this module stored itself with the matching Marshal -- audited by kind", ["fb0366212ba58bd0"]);
   ("x/gov/keeper.Keeper.GetNetworkActorByAddress", "must", 1%nat, "decodes bytes (or re-parses an address) that this module stored itself with the matching Marshal -- audited by kind", ["a6034344f4445b9f"]);
-  ("x/gov/keeper.Keeper.GetNetworkActorOrFail", "panic", 1%nat, "unreachable while every WRITER keeps the permission / role index entries and the actor record together: x/gov keeper (AddWhitelistPermission, RemoveWhitelistedPermission, AssignRoleToActor, UnassignRoleFromActor, SaveNetworkActor, DeleteNetworkActor) and, outside x/gov, the address-rotation blocks of x/recovery msgServer.RotateRecoveryAddress / RotateValidatorByHalfRRTokenHolder, which move actor, roles and individual permission index entries -- those callers are pinned in foreign_writer_pins (C06_foreign_writers_unchanged); exercised by the actor-perturbation histories", ["3368f8be08283503"]);
+  ("x/gov/keeper.Keeper.GetNetworkActorOrFail", "panic", 1%nat, "REACHABLE on trees where a rotation may target an existing actor (finding GetNetworkActorOrFail:actor-missing, pending fix C06-rotation-onto-actor, flag rotation_refuses_actor_target, C06_rotation_onto_actor_on_this_tree); otherwise unreachable while every WRITER keeps the permission / role index entries and the actor record together: x/gov keeper (AddWhitelistPermission, RemoveWhitelistedPermission, AssignRoleToActor, UnassignRoleFromActor, SaveNetworkActor, DeleteNetworkActor) and, outside x/gov, the address-rotation blocks of x/recovery msgServer.RotateRecoveryAddress / RotateValidatorByHalfRRTokenHolder, which move actor, roles and individual permission index entries -- those callers are pinned in foreign_writer_pins (C06_foreign_writers_unchanged); exercised by the actor-perturbation histories", ["3368f8be08283503"]);
   ("x/gov/keeper.Keeper.GetNetworkActorsByAbsoluteWhitelistPermission", "index", 2%nat, "map lookup or index bounded by the enclosing loop / length check", ["b939a5d0ed92fdf9"]);
   ("x/gov/keeper.Keeper.GetNetworkProperties", "must", 1%nat, "decodes bytes (or re-parses an address) that this module stored itself with the matching Marshal -- audited by kind", ["0f5cfad58d8cfa37"]);
   ("x/gov/keeper.Keeper.GetPermissionsForRole", "must", 1%nat, "decodes bytes (or re-parses an address) that this module stored itself with the matching Marshal -- audited by kind", ["37832a867beaeb33"]);
@@ -543,8 +553,8 @@ Definition foreign_writer_pins : list (string * list string) := [
   ("x/layer2/keeper.msgServer.MintCreateFtTx", ["9aadda9fdbc648ef"]);
   ("x/layer2/keeper.msgServer.MintCreateNftTx", ["ba376a5f0f7d37d0"]);
   ("x/multistaking/keeper.Keeper.SlashStakingPool", ["3659416c5742f268"]);
-  ("x/recovery/keeper.msgServer.RotateRecoveryAddress", ["253b1af893e5cf45"]);
-  ("x/recovery/keeper.msgServer.RotateValidatorByHalfRRTokenHolder", ["994ac9f5b9dca6d0"]);
+  ("x/recovery/keeper.msgServer.RotateRecoveryAddress", ["253b1af893e5cf45"; "c7f95f49c98b0e1c"]);
+  ("x/recovery/keeper.msgServer.RotateValidatorByHalfRRTokenHolder", ["994ac9f5b9dca6d0"; "c960f621189dc98a"]);
   ("x/slashing/keeper.msgServer.RefuteSlashingProposal", ["4942680cc029f6b1"]);
   ("x/staking/teststaking.Helper.CreateValidator", ["dd9c4f2dc40f0aa9"])
 ].
